@@ -336,9 +336,11 @@ def run(ctx):
             xs = G.x_values(rnd, spec, lo, hi, n=6)
             with hostile(fl, envname, ctx):
                 term = G.build_term(fl, spec)
-                term.membership(np.array(xs))
-                for v in xs[:12]:
-                    term.membership(v)
+                for arg in [np.array(xs)] + list(xs[:12]):
+                    try:
+                        term.membership(arg)
+                    except Exception:
+                        pass  # judged by the monitor (an overflow warning turned into an error is the environment's doing)
         # a Discrete term whose pairs are put in order by sort(): the pairs stay pairs, and a sorted term is left as it is
         for i, rnd in ctx.cases("discrete-sort", ctx.scale(30, 600)):
             n = rnd.randint(2, 7)
